@@ -15,6 +15,7 @@ var redirectTable = map[string]string{
 	"(*bufio.Scanner).Scan":                   "ModelScannerScan",
 	"(*bufio.Scanner).Text":                   "ModelScannerText",
 	"(*bufio.Scanner).Err":                    "ModelScannerErr",
+	"fmt.Fprint":                              "ModelFprint",
 	"sort.Slice":                              "ModelSortSlice",
 	"github.com/kelseyhightower/envconfig.Process": "ModelEnvconfigProcess",
 }
